@@ -202,6 +202,14 @@ class DataField(object):
 
         return s
 
+    def forget_global_fitparam_values(self):
+        """Forgets the global fit parameter values for which the data field
+        values have been calculated. Hence, the next call of the ``calculate``
+        method will re-calculate the data field values.
+        """
+        self._global_fitparam_value_list = [None] *\
+            len(self._global_fitparam_name_list)
+
     def _get_desired_dtype(self, tdm):
         """Retrieves the data type this field should have. It's ``None``, if no
         data type was defined for this data field.
@@ -782,6 +790,12 @@ class TrialDataManager(object):
         # data fields to calculate. Caches that are tagged with the trial data
         # state ID must not survive a new trial.
         self._trial_data_state_id += 1
+
+        # The values of the data fields that depend on global fit parameters
+        # belong to the previous trial (events and sources), even if the same
+        # events array is given again.
+        for dfield in self._global_fitparam_data_fields_dict.values():
+            dfield.forget_global_fitparam_values()
 
         # Set the events property, so that the calculation functions of the data
         # fields can access them.
